@@ -16,8 +16,15 @@ type pair[K, V any] struct {
 	Val V
 }
 
-func NewIntegerIter(n int) Iterator[pair[int, any]] {
-	return &integerIter{n: n, i: -1}
+// integer constraint: range over integer accepts every integer type,
+// and the iteration values have the type of the range expression
+type integer interface {
+	~int | ~int8 | ~int16 | ~int32 | ~int64 |
+		~uint | ~uint8 | ~uint16 | ~uint32 | ~uint64 | ~uintptr
+}
+
+func NewIntegerIter[N integer](n N) Iterator[pair[N, any]] {
+	return &integerIter[N]{n: n}
 }
 
 func NewStringIter(str string) Iterator[pair[int, rune]] {
@@ -38,12 +45,18 @@ func NewChanIter[V any](ch <-chan V) Iterator[pair[V, any]] {
 	return &chanIter[V]{ch: ch}
 }
 
-type integerIter struct {
-	n int
-	i int
+type integerIter[N integer] struct {
+	n       N
+	i       N
+	started bool
 }
 
-func (i *integerIter) MoveNext() bool {
+func (i *integerIter[N]) MoveNext() bool {
+	if !i.started {
+		// the first value is 0, n <= 0 yields nothing
+		i.started = true
+		return i.n > 0
+	}
 	if i.i+1 >= i.n {
 		return false
 	}
@@ -51,8 +64,8 @@ func (i *integerIter) MoveNext() bool {
 	return true
 }
 
-func (i *integerIter) Current() pair[int, any] {
-	return pair[int, any]{Key: i.i}
+func (i *integerIter[N]) Current() pair[N, any] {
+	return pair[N, any]{Key: i.i}
 }
 
 type stringIter struct {
